@@ -140,6 +140,10 @@ void build_alphabet(int tier) {
     { Stmt s = mk(O_ARITH_VK); s.a = 2; s.v0 = VX; s.v1 = VY; s.k = -1; add(s, "x:=y*-1"); }
     { Stmt s = mk(O_ARITH_VK); s.a = 1; s.v0 = VX; s.v1 = VX; s.k = 2; add(s, "x:=x-2"); }
     { Stmt s = mk(O_ARITH_VK); s.a = 3; s.v0 = VX; s.v1 = VX; s.k = -2; add(s, "x:=x/-2"); }
+    { Stmt s = mk(O_ARITH_VK); s.a = 4; s.v0 = VX; s.v1 = VY; s.k = 2; add(s, "x:=y udiv 2"); }
+    { Stmt s = mk(O_ARITH_VK); s.a = 6; s.v0 = VX; s.v1 = VY; s.k = 2; add(s, "x:=y urem 2"); }
+    { Stmt s = mk(O_BITW_VK); s.a = 1; s.v0 = VX; s.v1 = VX; s.k = 1; add(s, "x:=x|1"); }
+    { Stmt s = mk(O_BITW_VK); s.a = 3; s.v0 = VX; s.v1 = VX; s.k = 1; add(s, "x:=x<<1"); }
   }
   if (WITH_BOOL) {
     { Stmt s = mk(O_BOOL_ASSIGN_CST); s.v0 = VB1; s.c = cst({{1, VX}}, 0, C_LEQ); add(s, "b1:=(x<=0)"); }
@@ -290,6 +294,8 @@ void run_program(const ProgId &id, const std::string &only_dom) {
 
   std::vector<Init> inits = init_menu();
   std::vector<FP> fps = fp_menu();
+  // quick tier of the two-statement job over the large alphabet: default fixpoint parameters only
+  if (!th && vp::args().opt.count("second")) fps.resize(1);
   for (auto &in : inits) {
     // concrete exploration from every initial state described by `in`
     ExploreCfg ec;
